@@ -30,14 +30,15 @@ pub fn worlds(net: &Net, tier: Tier, idx: u64) -> Vec<World> {
     ];
     // (an offset is a charge per edge: the least-cost route is no longer the shortest one when it has more edges)
     let rates = [Rate::Raw, Rate::Factor(0.5), Rate::Combined(vec![Rate::Factor(2.0), Rate::Factor(0.25)]), Rate::Combined(vec![Rate::Factor(0.5), Rate::Offset(1.5)])];
-    let sur: Vec<Vec<(usize, f64)>> = if m > 0 { vec![vec![], vec![(0, 3.5)], vec![(m - 1, 0.75)]] } else { vec![vec![]] };
+    // (the last table set posts edge 0 twice: two tables of a combined rate price it, and both count)
+    let sur: Vec<Vec<(usize, f64)>> = if m > 0 { vec![vec![], vec![(0, 3.5)], vec![(m - 1, 0.75)], vec![(0, 2.0), (m - 1, 0.75), (0, 1.5)]] } else { vec![vec![]] };
     let full = tier == Tier::Thorough;
     // distance worlds
     for (ui, (mu, fu)) in dist_units.iter().enumerate() {
         for (wi, wd) in [1.0, 0.3].iter().enumerate() {
             for (ri, r) in rates.iter().enumerate() {
                 for (si, s) in sur.iter().enumerate() {
-                    if !full && (ui + wi + ri + si + idx as usize) % 6 != 0 {
+                    if !full && ((ui + wi + ri + si + idx as usize) % 6 != 0 || (si == 3 && idx % 2 == 1)) {
                         continue;
                     }
                     let mut w = World::distance(net.clone());
@@ -58,7 +59,7 @@ pub fn worlds(net: &Net, tier: Tier, idx: u64) -> Vec<World> {
             for (wi, (wd, wt)) in [(1.0, 0.0), (0.0, 1.0), (1.0, 1.0), (0.3, 2.0)].iter().enumerate() {
                 for (ri, r) in rates.iter().enumerate() {
                     for (si, s) in sur.iter().enumerate() {
-                        if !full && (ui * 5 + wi * 3 + ri + si + idx as usize) % 24 != 0 {
+                        if !full && ((ui * 5 + wi * 3 + ri + si + idx as usize) % 24 != 0 || (si == 3 && idx % 2 == 1)) {
                             continue;
                         }
                         let mut w = World::distance(net.clone());
